@@ -19,7 +19,7 @@ inline void fz_init(bool need_pgp_ctx) {
 	static bool done = false; if (done) return; done = true;
 	static NullBuf2 nb; std::cerr.rdbuf(&nb); std::clog.rdbuf(&nb);
 	if (!init_libTMCG()) { fprintf(stderr, "init_libTMCG failed\n"); _exit(2); }
-	g_par.fs = 512; g_par.gs = 256; g_par.le = 80; g_par.n = 4;
+	g_par.fs = 512; g_par.gs = 256; g_par.le = 80; g_par.n = 4; g_pkt_loop_max = 48;
 	tmcg_openpgp_secure_octets_t sk; unsigned chk = 0; sk.push_back(9); for (int i = 0; i < 32; i++) { sk.push_back((unsigned char)(0x40 + i)); chk += 0x40 + i; } sk.push_back(chk >> 8); sk.push_back(chk & 0xff);
 	std::vector<std::pair<std::string, std::string>> prvs; std::vector<std::string> pubs; std::string data = "C12 test data: the quick brown fox jumps over the lazy dog.\n";
 	const char *dir = getenv("C12_CTX_DIR");
